@@ -432,6 +432,28 @@ def handmade_scenes():
     data[9:11, 8:11] = 8.0
     segm[data > 0] = 3
     out.append(('thin-L', data, segm))
+    # two two-peak parents; the first carries a one-pixel bump (a fragment below npixels at the
+    # marker level, ahead of the peaks in raster order), so its markers arrive with a label gap
+    data = np.zeros((9, 26))
+    segm = np.zeros((9, 26), dtype=int)
+    for label, x0 in ((1, 1), (2, 14)):
+        data[1:8, x0:x0 + 11] = 2.0
+        data[3:6, x0 + 1:x0 + 4] = 10.0
+        data[3:6, x0 + 7:x0 + 10] = 9.0
+        segm[1:8, x0:x0 + 11] = label
+    data[1, 1] = 6.0
+    out.append(('bump-before-peaks', data, segm))
+    # the same with the bump between the peaks in raster order and three parents
+    data = np.zeros((9, 39))
+    segm = np.zeros((9, 39), dtype=int)
+    for label, x0 in ((3, 1), (5, 14), (9, 27)):
+        data[1:8, x0:x0 + 11] = 2.0
+        data[2:5, x0 + 1:x0 + 4] = 10.0
+        data[4:7, x0 + 7:x0 + 10] = 9.0
+        segm[1:8, x0:x0 + 11] = label
+    data[3, 6] = 6.0
+    data[3, 19] = 6.0
+    out.append(('bump-between-peaks', data, segm))
     return out
 
 
@@ -439,12 +461,12 @@ def handmade_stage(ctx):
     SegmentationImage = _real()[0]
     n = 0
     for name, data, segm in handmade_scenes():
-        for npix in (2, 4, 6):
+        for npix in (2, 3, 4, 6):
             for conn in (8, 4):
                 if conn == 4 and name == 'diagonal-tail':
                     continue       # that parent is only 8-connected: 4-connectivity is a documented error
                 for relabel in (False, True):
-                    for mode, nlevels in (('linear', 8), ('exponential', 16)):
+                    for mode, nlevels in (('linear', 8), ('linear', 3), ('exponential', 16)):
                         params = {'labels': None, 'npixels': npix, 'nlevels': nlevels, 'contrast': 0.001,
                                   'mode': mode, 'connectivity': conn, 'relabel': relabel}
                         seg = SegmentationImage(segm.copy())
